@@ -3,9 +3,9 @@ sys.path.insert(0, os.path.join(os.path.dirname(__file__), '..', 'lib'))
 import std
 
 SPEC = {
-    'prop_files': ['theories/Properties/C09.v'],
-    'coq_targets': ['theories/Properties/C09.vo', 'theories/C09/Corr.vo'],
-    'closure_dirs': ['theories/C09', 'theories/Gen/Consts.v', 'theories/Base/Outcome.v'],
+    'prop_files': ['theories/Properties/C09.v', 'theories/Properties/C09_doc.v'],
+    'coq_targets': ['theories/Properties/C09.vo', 'theories/Properties/C09_doc.vo', 'theories/C09/Corr.vo'],
+    'closure_dirs': ['theories/C09', 'theories/Gen/Consts.v', 'theories/Base/Outcome.v', 'theories/Wire/Item.v', 'theories/Wire/Json.v', 'theories/Wire/JsonRT.v', 'theories/Wire/JsonLeaf.v', 'theories/Wire/JsonDoc.v', 'theories/Wire/JsonDocProofs.v'],
     'harness': 'c09',
     'args': {
         'quick': ['-num', 700, '-raw', 250, '-fast', 250, '-str', 800, '-enc', 250, '-doc', 300],
